@@ -4,7 +4,7 @@
    environment a rule-abiding server and an adversarial scheduler (callers, server timing,
    notifications, select! choice, timer expiry).  [reply_fn] is the server's reply to a request:
    universally quantified. *)
-From MPD Require Import Bytes Tables BuilderModel LoopModel LoopProofs LoopSpec LoopSpecProofs ServerModel DriverLoop LoopRefine LoopRefineProofs.
+From MPD Require Import Bytes Tables BuilderModel LoopModel LoopProofs LoopSpec LoopSpecProofs ServerModel DriverLoop LoopRefine LoopRefineProofs LoopCancel LoopCancelProofs.
 Open Scope N_scope.
 
 (* for EVERY schedule the server never receives anything but noidle while it waits in idle *)
@@ -91,6 +91,17 @@ Theorem c05_exec_legal_session : forall cf labs gls, in_fragment cf labs gls ->
   s_violated (x_srv (fst (xrun (xinit cf) labs))) = false.
 Proof. exact exec_never_violated. Qed.
 
+(* ... on the wire: what the client has written and the server has not read yet is the rest of a sequence of whole requests (the
+   server may be half-way through a command list: then [pre] is what it has read of it), at most one of them a request, and
+   while the simulated server waits in idle only (at most one) noidle is on its way to it *)
+Theorem c05_exec_wire : forall cf labs gls, in_fragment cf labs gls ->
+  let xf := fst (xrun (xinit cf) labs) in
+  exists ws pre, concat ws = pre ++ x_c2s xf /\ Forall (write_ok cf) ws /\
+    (s_list (x_srv xf) = None -> pre = []) /\
+    (length (filter is_req ws) <= 1)%nat /\
+    (s_idle (x_srv xf) = true -> ws = [] \/ ws = [noidle_line]).
+Proof. exact exec_wire. Qed.
+
 (* the segments [run_loopm] prints — what the real client's trace is compared with — are the
    renderings of the structured segments of [xrun] *)
 Theorem c05_exec_trace_text : forall cf labs gls t0, in_fragment cf labs gls ->
@@ -108,6 +119,16 @@ Proof. exact exec_no_panic. Qed.
 Example c05_exec_fragment_inhabited : in_fragment ex_cf ex_labs ex_gls.
 Proof. exact ex_fragment. Qed.
 
+(* callers giving up (x<id>) do not change the session: label by label the client writes the same bytes as in the run in which every
+   x<id> is replaced by a no-op, and what the server has not yet read and the server's state (including its violation flag) end up the
+   same — for every label list without h / a and with distinct request ids, faults included (Props/C01.v c01_cancel_erasure).  In
+   particular a request whose caller has gone is still written and answered: the session stays in step with the server. *)
+Theorem c05_exec_cancel_wire : forall cf ls, cancel_ok [] ls = true ->
+  map g_w (snd (xrun (xinit cf) ls)) = map g_w (snd (xrun (xinit cf) (map erase_label ls))) /\
+  x_c2s (fst (xrun (xinit cf) ls)) = x_c2s (fst (xrun (xinit cf) (map erase_label ls))) /\
+  x_srv (fst (xrun (xinit cf) ls)) = x_srv (fst (xrun (xinit cf) (map erase_label ls))).
+Proof. exact exec_cancel_w. Qed.
+
 Print Assumptions c05_legal_session.
 Print Assumptions c05_idle_only_noidle.
 Print Assumptions c05_one_outstanding.
@@ -118,5 +139,7 @@ Print Assumptions c05_returns_to_idle.
 Print Assumptions c05_runs_are_bounded.
 Print Assumptions c05_exec_refines.
 Print Assumptions c05_exec_legal_session.
+Print Assumptions c05_exec_wire.
 Print Assumptions c05_exec_trace_text.
 Print Assumptions c05_exec_no_panic.
+Print Assumptions c05_exec_cancel_wire.
